@@ -65,6 +65,10 @@ pub fn oracle_c04(op: &[&str], out: &str) -> Verdict {
             if (0..n).any(|i| (hf[i] - g[i]).rem_euclid(Q) != 0) {
                 return Verdict::Fail("h*f != g (mod q): the public key does not match the secret key".into());
             }
+            let hcf = negacyc(&h, &cf);
+            if (0..n).any(|i| (hcf[i] - cg[i]).rem_euclid(Q) != 0) {
+                return Verdict::Fail("h*F != G (mod q): the public key does not match the secret basis".into());
+            }
             let fq: Vec<u32> = f.iter().map(|x| x.rem_euclid(Q) as u32).collect();
             if vh::felt_fft(&fq).iter().any(|&x| x == 0) {
                 return Verdict::Fail("f is not invertible modulo q".into());
